@@ -351,7 +351,12 @@ def run(tier="quick", seed=0, repo="/repo"):
     rec = Recorder(target=TARGET)
     rng = np.random.default_rng(seed)
     stats = {}
-    per_n, pmax = (330, 4) if tier == "quick" else (6000, 6)
+    per_n, pmax = (330, 4) if tier == "quick" else (5000, 6)
+    for ignore in (False, True):    # smallest input on which the pinned MVCAPA cannot report columns at all (one loud sample)
+        case = {"api": "MVCAPA", "n": 2, "p": 2, "m": 2, "M": 2, "saving": {"kind": "l2", "X": [[0.0, 0.0], [0.0, 3.0]]},
+                "ignore": ignore, "pen": {"cpen": "combined", "cscale": 1.0, "ppen": "sparse", "pscale": 1.0}}
+        nt, summ = check_case(rec, case, stats)
+        rec.case(fingerprint(case), nt, summ)
     for n in range(3, 13):
         for _ in range(per_n):
             case = random_case(rng, n, pmax)
